@@ -44,12 +44,17 @@ var allT = targets.All()
 var coreT = targets.Core()
 
 // oneCase runs one (input, target) pair through every oracle.
-func oneCase(ctx *workers.Ctx, fam string, b []byte, tg targets.Target, measure bool) {
+func oneCase(ctx *workers.Ctx, fam string, b []byte, tg targets.Target, measure, risky bool) {
+	if risky && !ctx.RiskyLabel(tg.Name) {
+		return
+	}
 	var derr, uerr error
+	panicked := false
 	cr := &countReader{r: bytes.NewReader(b)}
 	decode := func() {
 		if p := probe.Call(func() { derr = cbor.NewDecoder(cr).Decode(tg.New()) }); p != nil {
 			derr = fmt.Errorf("panic")
+			panicked = true
 			ctx.Violation(p.Key(), fmt.Sprintf("decoding %x into %s panics: %s (in %s)", clip(b), tg.Name, p.Value, p.Frame), rep(fam, b, tg))
 		}
 	}
@@ -78,7 +83,7 @@ func oneCase(ctx *workers.Ctx, fam string, b []byte, tg targets.Target, measure 
 	} else {
 		ctx.Distinct("err:" + tg.Name)
 	}
-	if measure {
+	if measure && !panicked {
 		bound := uint64(allocA0 + allocK*len(b))
 		if alloc > bound {
 			site := probe.AllocSite(func() { _ = cbor.NewDecoder(bytes.NewReader(b)).Decode(tg.New()) })
@@ -171,7 +176,7 @@ func runBytes(ctx *workers.Ctx, tier string, lo, hi int) {
 			ts = coreT
 		}
 		for _, tg := range ts {
-			oneCase(ctx, "bytes", b, tg, measure)
+			oneCase(ctx, "bytes", b, tg, measure, false)
 		}
 		if i == 300 || i == 70000 {
 			ctx.Sample(map[string]any{"family": "bytes", "input_hex": hex.EncodeToString(b), "targets": len(ts)})
@@ -255,11 +260,8 @@ func runTokens(ctx *workers.Ctx, tier string, lo, hi int) {
 			b = append(b, tk.b...)
 			risky = risky || tk.risky
 		}
-		if risky {
-			ctx.Risky()
-		}
 		for _, tg := range ts {
-			oneCase(ctx, "tokens", b, tg, true)
+			oneCase(ctx, "tokens", b, tg, true, risky)
 		}
 		if i == lo && lo%7 == 0 {
 			ctx.Sample(map[string]any{"family": "tokens", "input_hex": hex.EncodeToString(b)})
@@ -337,10 +339,9 @@ func runDeep(ctx *workers.Ctx, tier string, lo, hi int) {
 	cs := deepCases(tier)
 	for i := lo; i < hi; i++ {
 		ctx.Begin(i)
-		ctx.Risky()
 		c, tg := cs[i/len(coreT)], coreT[i%len(coreT)]
 		start := time.Now()
-		oneCase(ctx, "deep:"+c.name, c.b, tg, true)
+		oneCase(ctx, "deep:"+c.name, c.b, tg, true, true)
 		if el := time.Since(start); el > 20*time.Second {
 			ctx.Violation("slow:"+tg.Name, fmt.Sprintf("decoding the %d-byte input %q into %s took %v", len(c.b), c.name, tg.Name, el), rep("deep:"+c.name, c.b, tg))
 		}
@@ -409,10 +410,9 @@ func runInfl(ctx *workers.Ctx, tier string, lo, hi int) {
 	cs := inflCases()
 	for i := lo; i < hi; i++ {
 		ctx.Begin(i)
-		ctx.Risky()
 		c := cs[i]
-		oneCase(ctx, "inflate:"+c.name, c.b, c.target, true)
-		oneCase(ctx, "inflate:"+c.name, c.b, allT[0], true) // also into `any`
+		oneCase(ctx, "inflate:"+c.name, c.b, c.target, true, true)
+		oneCase(ctx, "inflate:"+c.name, c.b, allT[0], true, true) // also into `any`
 		if i%211 == 0 {
 			ctx.Sample(map[string]any{"family": "inflate", "case": c.name, "target": c.target.Name})
 		}
@@ -440,8 +440,12 @@ func main() {
 	if r.Quick() {
 		deadline = time.Now().Add(150 * time.Second)
 	}
+	caseTO := 60 * time.Second
+	if !r.Quick() {
+		caseTO = 600 * time.Second
+	}
 	for _, f := range families {
-		res := workers.Run(f, r.Tier, workers.Options{SingleProc: true, CaseTimeout: 300 * time.Second, Deadline: deadline})
+		res := workers.Run(f, r.Tier, workers.Options{SingleProc: true, CaseTimeout: caseTO, Deadline: deadline})
 		nT := int64(len(allT))
 		r.Evaluations.Add(res.Evals * nT / 2) // (input,target) pairs, conservative: at least core targets
 		r.Set("inputs_"+f.Name, res.Evals)
